@@ -116,7 +116,9 @@ class Ctx:
             args.append("-deadlock")   # -deadlock DISABLES deadlock checking
         if coverage is None:
             # action coverage (vacuity report) for the exhaustive runs of the thorough tier
-            coverage = self.tier == "thorough" and not simulate and not dump_dot
+            # (only for the protocol models: on the vector-enumerating modules, whose states are all initial states,
+            # coverage statistics cost minutes and say nothing)
+            coverage = self.tier == "thorough" and not simulate and not dump_dot and module.startswith("ATP")
         if coverage:
             args += ["-coverage", "1"]
         if simulate:
